@@ -733,6 +733,41 @@ def pick_cover(c, recs, rels):
   return chosen
 
 
+def regressions(ck):
+  """Committed reproducers (replays/C31/index.json): each is re-run through the same oracle; a defect that is still
+  present reports under its fingerprint (KNOWN-FINDING once listed), a repaired one simply passes."""
+  import json
+  from vf import mj
+  path = os.path.join(os.path.dirname(WORK), 'replays', 'C31', 'index.json')
+  if not os.path.exists(path):
+    return
+  c = C31(ck)
+  lib = c.lib
+  for r in json.load(open(path)):
+    m = lib.model_from_xml(r['xml'])
+    try:
+      rec = c.roundtrip('replay:' + r['id'], m, xml=r['xml'], seed=1)
+    except Violation as e:
+      ck.violation('Violation: %s' % e, dict(replay=r['id']), bucket=e.bucket)
+      continue
+    ck.label('replay:' + r['id'])
+    if r['kind'] == 'roundtrip':
+      continue
+    lay = rec['lay']
+    if r['kind'] == 'size':
+      v = int(getattr(m, r['field']))
+      nv = r['value'] if 'value' in r else v + r['delta']
+      case = dict(model=rec['name'], cls='size', field=r['field'], what='replay %s: size %s: %d -> %d' % (r['id'], r['field'], v, nv),
+                  ops=[['set', lay.sizes[r['field']], i64(nv)]])
+    else:
+      off, dt, sh, nb = lay.arrays[r['field']]
+      old = int(np.asarray(getattr(m, r['field'])).ravel()[r['index']])
+      case = dict(model=rec['name'], cls='index', field=r['field'], reference=r['field'] not in TYPE_FIELDS,
+                  what='replay %s: %s[%d]: %d -> %d' % (r['id'], r['field'], r['index'], old, r['value']),
+                  ops=[['set', off + r['index'] * dt.itemsize, i32(r['value']) if dt.itemsize == 4 else i64(r['value'])]])
+    c.run_cases(rec, [case])
+
+
 def main(ck):
   from vf import mj
   import time
